@@ -14,7 +14,7 @@ import (
 
 func (g *Gen) newFnCtx(fn *ssa.Function, sp *FuncSpec) *FnCtx {
 	fc := &FnCtx{g: g, fn: fn, spec: sp, declared: map[string]string{}, sorts: map[string]string{}, assumpt: map[string]bool{},
-		locals: map[*ssa.Alloc]bool{}, callOrd: map[string]int{}, closures: map[ssa.Value]*ssa.MakeClosure{}, propFlags: map[int][]propFlag{},
+		locals: map[*ssa.Alloc]bool{}, callOrd: map[string]int{}, closures: map[ssa.Value]*ssa.MakeClosure{}, propFlags: map[int][]propFlag{}, ground: map[string]bool{},
 		modMemo: map[*ssa.Function]*ModSet{}, modBusy: map[*ssa.Function]bool{}}
 	if sp.Mode == "bv" {
 		fc.m = M{ModeBV}
@@ -32,10 +32,19 @@ func (fc *FnCtx) prelude() string {
 	sb.WriteString("(declare-sort Str 0)\n")
 	sb.WriteString("(declare-fun strlen (Str) " + is + ")\n")
 	sb.WriteString("(declare-fun strid (Str) Int)\n")
-	if fc.m.mode == ModeInt {
-		sb.WriteString("(assert (forall ((s Str)) (! (>= (strlen s) 0) :pattern ((strlen s)))))\n")
-	} else {
-		sb.WriteString("(assert (forall ((s Str)) (! (bvsge (strlen s) (_ bv0 64)) :pattern ((strlen s)))))\n")
+	usesStr := false
+	for _, d := range fc.decls {
+		if strings.Contains(d, "Str") {
+			usesStr = true
+			break
+		}
+	}
+	if usesStr {
+		if fc.m.mode == ModeInt {
+			sb.WriteString("(assert (forall ((s Str)) (! (>= (strlen s) 0) :pattern ((strlen s)))))\n")
+		} else {
+			sb.WriteString("(assert (forall ((s Str)) (! (bvsge (strlen s) (_ bv0 64)) :pattern ((strlen s)))))\n")
+		}
 	}
 	return sb.String()
 }
@@ -224,9 +233,17 @@ func (fc *FnCtx) addObligAt(o *Oblig, b *ssa.BasicBlock, seq int) {
 // frameObligs: arrays not listed in modifies are unchanged for pre-existing objects.
 func (fc *FnCtx) frameObligs(fr *Frame, r retInfo, suffix string) {
 	ms := newModSet()
-	fc.g.specMods(fc, fc.spec, ms)
+	fc.g.specModsP(fc, fc.spec, ms, false)
 	if ms.All {
 		return
+	}
+	penv := fr.specEnv(fc.entry, nil, nil)
+	pkeys := map[string][]string{}
+	for _, pm := range fc.g.pointMods(fc, fc.spec) {
+		kv := penv.tr(pm.key)
+		for _, n := range pm.names {
+			pkeys[n] = append(pkeys[n], kv.S)
+		}
 	}
 	var names []string
 	for n := range fc.sorts {
@@ -243,6 +260,13 @@ func (fc *FnCtx) frameObligs(fr *Frame, r retInfo, suffix string) {
 		}
 		srt := fc.sorts[n]
 		var goal string
+		if ks, ok := pkeys[n]; ok {
+			t := a
+			for _, k := range ks {
+				t = sx("store", t, k, sx("select", b, k))
+			}
+			a = t
+		}
 		if strings.HasPrefix(srt, "(Array Int ") && !isGhostArr(n) {
 			goal = fmt.Sprintf("(forall ((q!r Int)) (=> (<= q!r %s) (= (select %s q!r) (select %s q!r))))", fc.entry.get("$top"), a, b)
 		} else {
